@@ -529,10 +529,81 @@ def expand(task):
     return out
 
 
+def two_outputs(task):
+    """a harvester of a function with two outputs: one of them is harvested
+    again separately and handed over as a DataArray (every permutation of
+    the steps below up to length 3 - a small search of its own)"""
+    import numpy as np
+    import xarray as xr
+    import xyzpy as xyz
+
+    eng, name = task["engine"], task["name"]
+    d = core.fresh_dir("c05two")
+    path = os.path.join(d, name)
+    f = xfn.make_fn(["a"], kind="tuple2", name="f05t")
+    vio = []
+    A = [1, 2, 3]
+    model = {}     # (var, a) -> value
+
+    def val(a, i):
+        return xfn.expected("tuple2", {"a": a})[i]
+
+    def new_h():
+        return xyz.Harvester(xyz.Runner(f, var_names=["x", "y"]),
+                             data_name=path, engine=eng)
+
+    steps = task["steps"]
+    h = new_h()
+    for st in steps:
+        try:
+            if st == "harvest":
+                h.harvest_combos({"a": A[:2]}, verbosity=0, overwrite=True)
+                for a in A[:2]:
+                    model[("x", a)] = val(a, 0)
+                    model[("y", a)] = val(a, 1)
+            elif st in ("da-y", "da-x"):
+                v = st[-1]
+                da = xr.DataArray([-1.0, -2.0], dims=("a",),
+                                  coords={"a": A[1:]}, name=v)
+                h.add_ds(da, overwrite=True)
+                for a, w_ in zip(A[1:], (-1.0, -2.0)):
+                    model[(v, a)] = w_
+            elif st == "new":
+                h = new_h()
+        except Exception as e:
+            vio.append(("C05|%s|two-outputs|raised:%s" % (eng, type(e).__name__),
+                        "steps %r: %r" % (steps, e)))
+            break
+        for where, ds in (("memory", h.full_ds), ("disk", xyz.load_ds(
+                path, engine=eng) if model else None)):
+            if ds is None:
+                continue
+            got = {(v_, a_): float(ds[v_].sel(a=a_))
+                   for v_ in ds.data_vars for a_ in ds["a"].values.tolist()
+                   if not np.isnan(float(ds[v_].sel(a=a_)))}
+            if got != model:
+                vio.append(("C05|%s|two-outputs|%s" % (eng, where),
+                            "after %r: %s holds %r, expected %r"
+                            % (steps[:steps.index(st) + 1], where, got,
+                               model)))
+                return {"vio": vio, "task": task}
+    return {"vio": vio, "task": task}
+
+
 def run(ctx):
     os.environ["XV_TIER"] = ctx.tier
     states = transitions = 0
     per = {}
+    alphabet2 = ["harvest", "da-y", "da-x", "new"]
+    tasks2 = [{"engine": e, "name": n, "steps": list(p)}
+              for e, n in (("joblib", "two"), ("h5netcdf", "two.h5"))
+              for k in (1, 2, 3) for p in itertools.product(alphabet2, repeat=k)]
+    n2 = 0
+    for out in ctx.map_unordered("two_outputs", tasks2):
+        n2 += 1
+        for k_, w_ in out["vio"]:
+            ctx.violation(k_, w_, {"two": out["task"]})
+    ctx.coverage_extra["two_output_histories"] = n2
     for cfg in configs(ctx.tier):
         r = histbfs.bfs(ctx, "expand", cfg, cfg["depth"],
                         max_states=cfg["max_states"],
@@ -554,6 +625,8 @@ def run(ctx):
 
 
 def replay(case):
+    if "two" in case:
+        return two_outputs(case["two"])["vio"]
     d = os.path.join(core.scratch_root(), "c05")
     cfg, hist = case["cfg"], case["history"]
     w = build(cfg, hist[:-1], d)
